@@ -264,6 +264,24 @@ example : (step current (runHist current (step current (freshWorld demoMol) (.en
     [(.delAtom 0 2 false, []), (.addAtom 0 7 none false, []), (.read 0 "sssr", ["sssr"])]) (.exitExc 0) []).err = none := by
   decide +kernel
 
+/-! ## hydrogens -/
+
+/-- Full statement (kept visible; **false** of today's code, witness `Findings.C13.hydrogens_fresh_false`): after every
+admissible history no atom of an object outside a transaction carries a hydrogen count computed from an outdated
+environment.  Excluded class of the known finding: an atom attribute write and a structural edit inside one transaction. -/
+def HydrogensFresh : Prop :=
+  ∀ (m : Mol) (h : List (Op × List String)), admissible current (freshWorld m) h = true →
+    ∀ o ∈ (runHist current (freshWorld m) h).objs, o.backup = some none → hStale o.toCore = []
+
+/-- what is proved of the pending-change set: `add_bond(a, b)` / `delete_bond(a, b)` put `{a, b}` into `_changed`, and every
+other atom's hydrogen-relevant environment (own element / charge / radical, its non-special bonds with order and
+neighbour element) is untouched, so its stored hydrogen count stays valid.  (The reachable-state theorem itself is
+not proved; hydrogen freshness is validated by the correspondence: recomputed-atom sets exact, rebuild comparison.) -/
+theorem pending_set_sound_bonds (m : Mol) :
+    (∀ a b order m' n, gAddBond m a b order = .ok m' → n ≠ a → n ≠ b → envOf m' n = envOf m n) ∧
+    (∀ a b m' n, gDelBond m a b = .ok m' → n ≠ a → n ≠ b → envOf m' n = envOf m n) :=
+  ⟨fun _ _ _ _ _ h ha hb => addBond_env h ha hb, fun _ _ _ _ h ha hb => delBond_env h ha hb⟩
+
 /-! ## the adjacency stays symmetric -/
 
 /-- **wf_preserved** (edits): each raw graph edit the interpreter installs — `add_atom`, `add_bond`, `delete_atom`,
